@@ -45,8 +45,14 @@ def judge(what, snap, result, exc):
         if _cur.get("muted"):
             return
         f = mon2d.facts(snap)
-        if f is None or not mon2d.levels_ok(f):
+        # a stem crossed by 30 or more others makes the model offer more orders than there are bracket types; an answer
+        # is judged all the same (an optimal assignment has no use for the surplus orders), a refusal is not
+        over = f is not None and max((len(v) for v in f["g"].values()), default=0) + 1 > 30 and max(o2d.fcfs_levels(f["reg"]), default=0) < 30
+        if f is None or not (mon2d.levels_ok(f) or over):
             rec.skip("optimal.objective", "out-of-domain")
+            return
+        if exc is not None and over:
+            rec.skip("optimal.objective", "more orders offered than bracket types: refused")
             return
         if exc is not None:
             rec.violation("optimal.no-crash", mon2d.crash_detail(exc, f, what), mechanism=f"crash:{type(exc).__name__}:{what}")
@@ -147,6 +153,12 @@ def cases(shard, nshards, seed, tier):
     name, n, pairs = gen2d.thousand_stems()
     if mine():
         yield {"family": "hostile", "name": name, "n": n, "pairs": pairs}
+    # a stem crossed by 29 / 30 / 45 other stems (degree + 1 exceeds the 30 bracket types) next to a chain of four stems
+    # whose optimum needs three levels although first-come-first-served uses two
+    for fan in (29, 30, 45):
+        name, n, pairs = gen2d.fan_and_chain(fan)
+        if mine():
+            yield {"family": "hostile", "name": name, "n": n, "pairs": pairs}
     # hundreds of stems that DO cross (250, 300 and - thorough - 600 pseudoknots in a row, first-come-first-served not optimal)
     for units in (250, 300) + ((600,) if tier != "quick" else ()):
         name, n, pairs = gen2d.many_small_knots(units)
@@ -224,7 +236,8 @@ def run_case(case, rec):
     b = mon2d.make_bpseq(n, pairs)
     f = mon2d.facts(mon2d.snapshot(b))
     rec.mark_nontrivial(f["knotted"])
-    if max((len(c) for c in o2d.components(f["g"])), default=0) > 14:
+    if max((len(c) for c in o2d.components(f["g"])), default=0) > 14 and not str(case.get("name", "")).startswith("fan-of-"):
+        # (the designated fans are stars: easy for CBC and for the reference, which has its own step cap anyway)
         rec.skip("optimal.objective", "component>14")
         return
     try:
@@ -302,6 +315,21 @@ def _other_routes(n, pairs, f, rec):
                 continue
             rec.count("route:from_file:" + how)
             judge("dot_bracket of BpSeq.from_dotbracket(DotBracket.from_file(letter levels, " + how + "))", want_snap, res, None)
+    # the list of all notations is asked for FIRST, `the` notation afterwards, on one object
+    try:
+        comp = max((len(c) for c in o2d.components(f["g"])), default=0)
+        try:
+            size = o2d.grundy_product_size(f["reg"], f["g"]) if comp <= 6 else None
+        except o2d.Budget:
+            size = None
+        if size is not None and size <= 2000:  # the list is a cartesian product over the groups of crossing stems
+            b = mon2d.make_bpseq(n, pairs)
+            snap = mon2d.snapshot(b)
+            b.all_dot_brackets
+            rec.count("route:all_dot_brackets-first")
+            judge("dot_bracket after all_dot_brackets on the same object", snap, b.dot_bracket, None)
+    except Exception as e:
+        rec.violation("optimal.no-crash", {"route": "all_dot_brackets-first", "exception": repr(e)[:200]}, mechanism=f"crash:{type(e).__name__}:all-first")
     # derived objects: `the` notation of the structure without isolated pairs / without pseudoknots is judged as the
     # notation of THAT structure (the source's notation has been computed before, as a caller printing both would)
     try:
